@@ -834,7 +834,7 @@ class FillNode(BaseNode):
                     curr_forloop["parentloop"] = curr_forloop["parentloop"].copy()
                     curr_forloop = curr_forloop["parentloop"]
                 data.extra_context.update(layer)
-            elif index >= index_of_new_layers:
+            elif index_of_new_layers is not None and index >= index_of_new_layers:
                 for key, value in dict_layer.items():
                     if not key.startswith("_"):
                         data.extra_context[key] = value
@@ -1077,9 +1077,7 @@ def _nodelist_to_slot_render_func(
             # right under the top layer (which holds the slot data and our internal keys).
             index_of_last_component_layer = len(ctx.dicts) - 1
         else:
-            index_of_last_component_layer = get_last_index(ctx.dicts, lambda d: _COMPONENT_CONTEXT_KEY in d)
-            if index_of_last_component_layer is None:
-                index_of_last_component_layer = 0
+            index_of_last_component_layer = get_last_index(ctx.dicts, lambda d: _COMPONENT_CONTEXT_KEY in d) or 0
 
             # TODO: Currently there's one more layer before the `_COMPONENT_CONTEXT_KEY` layer, which is
             #       pushed in `_prepare_template()` in `component.py`.
